@@ -147,6 +147,18 @@ ElemAttribute::startElement(StylesheetExecutionContext& executionContext) const
 
         executionContext.pushProcessCurrentAttribute(false);
     }
+    else if (executionContext.isElementPending() == false)
+    {
+        // There is no element to add the attribute to (or it already
+        // has a child).  Nothing may be added to the pending attributes,
+        // not even a namespace declaration: it would end up on the next
+        // element.
+        warn(
+            executionContext,
+            XalanMessages::AttributesCannotBeAdded);
+
+        executionContext.pushProcessCurrentAttribute(false);
+    }
     else
     {
         // save original attribute name
